@@ -233,6 +233,7 @@ func checkC11(c *Ctx) {
 	c.R.Min("R-replace-atomic", 1)
 	c.R.Min("R-remove-self-only", 1)
 	c.R.Min("R-foreign-delete", 1)
+	c11SlotOwner(c)
 	_ = nSelf
 	_ = nReplace
 	_ = nForeign
@@ -397,4 +398,130 @@ func sameValue(a, b ssa.Value) bool {
 		return true
 	}
 	return false
+}
+
+// ---------------------------------------------------------------- R-slot-owner (client side)
+// The Streamable client keeps its listening stream in a single slot (a nested struct holding the stream's context,
+// its cancel function and a state flag). Re-opening the stream replaces the slot's content. A goroutine serving one
+// stream must touch the slot when it exits only if the slot is still its own: every write to a slot member, and every
+// call through the slot's cancel function, made by a goroutine body or its deferred closures must be controlled by a
+// comparison of a slot member with a value the goroutine captured when it was started.
+func c11SlotOwner(c *Ctx) {
+	n := 0
+	for _, fn := range c.P.LibFns {
+		if !clientSide(c, fn) || fn.Parent() == nil {
+			continue
+		}
+		// fn belongs to a goroutine: it, or an enclosing closure, is started with `go`
+		inGo := false
+		for f := fn; f != nil && f.Parent() != nil; f = f.Parent() {
+			for _, e := range ir.Callers(c.G, f) {
+				if _, ok := e.Site.(*ssa.Go); ok {
+					inGo = true
+				}
+			}
+		}
+		if !inGo {
+			continue
+		}
+		ir.EachInstr(fn, func(_ *ssa.BasicBlock, _ int, in ssa.Instruction) {
+			var slotKey string
+			var what string
+			switch x := in.(type) {
+			case *ssa.Store:
+				fa, ok := x.Addr.(*ssa.FieldAddr)
+				if !ok {
+					return
+				}
+				key, _, _, _ := ir.FullField(fa)
+				if slotOf(fa) == "" {
+					return
+				}
+				slotKey, what = slotOf(fa), "writes "+key
+			case *ssa.Call:
+				f, _, ok := ir.LoadedField(x.Call.Value)
+				if !ok || !isCancelFunc(f.Type) {
+					return
+				}
+				u, _ := x.Call.Value.(*ssa.UnOp)
+				if u == nil {
+					return
+				}
+				fa, ok := u.X.(*ssa.FieldAddr)
+				if !ok || slotOf(fa) == "" {
+					return
+				}
+				slotKey, what = slotOf(fa), "calls the slot's cancel function"
+			default:
+				return
+			}
+			n++
+			guarded := false
+			for _, g := range flow.Guards(fn, in.Block()) {
+				bin, ok := g.If.Cond.(*ssa.BinOp)
+				if !ok || (bin.Op != token.EQL && bin.Op != token.NEQ) {
+					continue
+				}
+				if (bin.Op == token.EQL) != g.Branch {
+					continue
+				}
+				isSlot := func(v ssa.Value) bool {
+					u, ok := v.(*ssa.UnOp)
+					if !ok {
+						return false
+					}
+					fa, ok := u.X.(*ssa.FieldAddr)
+					return ok && slotOf(fa) == slotKey
+				}
+				isCaptured := func(v ssa.Value) bool {
+					switch y := v.(type) {
+					case *ssa.FreeVar:
+						return true
+					case *ssa.UnOp:
+						_, fv := y.X.(*ssa.FreeVar)
+						return fv
+					}
+					return false
+				}
+				if (isSlot(bin.X) && isCaptured(bin.Y)) || (isSlot(bin.Y) && isCaptured(bin.X)) {
+					guarded = true
+				}
+			}
+			c.R.Check(guarded, "R-slot-owner", sprintf("%s %s", fname(fn), what), c.Pos(in.Pos()), "only while the slot still holds this goroutine's own stream (identity test)",
+				sprintf("%s, part of a goroutine serving one listening stream, %s of the shared slot %s without first checking that the slot is still its own: when a newer stream has replaced it, the old stream's exit clobbers (or cancels) the newer one", fname(fn), what, slotKey))
+		})
+	}
+	c.R.Min("R-slot-owner", 1)
+	_ = n
+}
+
+// slotOf: fa addresses a member of a nested (anonymous) struct member that also holds a context.CancelFunc — the
+// "current connection" slot of a transport. Returns the slot's key ("T.slot") or "".
+func slotOf(fa *ssa.FieldAddr) string {
+	inner, ok := fa.X.(*ssa.FieldAddr)
+	if !ok {
+		return ""
+	}
+	pt, ok := inner.Type().(*types.Pointer)
+	if !ok {
+		return ""
+	}
+	st, ok := pt.Elem().Underlying().(*types.Struct)
+	if !ok {
+		return ""
+	}
+	if _, named := pt.Elem().(*types.Named); named {
+		return ""
+	}
+	has := false
+	for i := 0; i < st.NumFields(); i++ {
+		if isCancelFunc(st.Field(i).Type()) {
+			has = true
+		}
+	}
+	if !has {
+		return ""
+	}
+	key, _, _, _ := ir.FullField(inner)
+	return key
 }
